@@ -73,4 +73,70 @@ def runStep (series : Bool) (lim : Option Nat) (s : Store) (m : Method) : Res St
 def call (series : Bool) (ms : List Method) (lim : Option Nat) (df : Frame) : Res Store :=
   ms.foldlM (runStep series lim) { cells := [df], res := 0, writes := [] }
 
+/-! ### `_nona` / `nona` on a store (src/pyg_base/_pandas.py:319-341): "the input object is not modified" for `nona`
+
+`_nona` has NO item assignment; what can reach the caller's object is the object it RETURNS: a numpy basic slice `df[:k]` is a
+VIEW of `df` (writing into the result writes into the argument - finding C12-E2, repaired by `.copy()`).  So a cell records
+whose buffer it shares.  Assumptions (sampled by the overwrite check of the harness on every `nona` line): boolean-mask
+selection `df[~mask]` and `np.isnan(df)` return objects with their own data; a pandas `.loc[a:b]` result never writes through
+(copy-on-write); a numpy basic slice shares the buffer; `.copy()` owns its data. -/
+
+structure NCell (α : Type) where
+  val : α
+  base : Option Nat       -- `some k`: a view onto the buffer of cell `k`; `none`: the object owns its data
+  deriving Repr, Inhabited
+
+structure NStore (α : Type) where
+  cells : List (NCell α)  -- cell 0: the caller's object
+  ret : Nat               -- the cell `_nona` returns
+  writes : List Nat       -- cells item assignments wrote into (none in `_nona`)
+  deriving Repr, Inhabited
+
+def NStore.alloc {α} (s : NStore α) (v : α) (base : Option Nat) : NStore α :=
+  { cells := s.cells ++ [⟨v, base⟩], ret := s.cells.length, writes := s.writes }
+
+/-- does a write into cell `k` reach the caller's object (cell 0)?  follows the view links -/
+def reachesInput {α} (s : NStore α) : Nat → Nat → Bool
+  | 0, k => k == 0
+  | fuel + 1, k => k == 0 || (match (s.cells[k]?).bind (·.base) with
+      | some b => reachesInput s fuel b
+      | Option.none => false)
+
+def NStore.aliasesInput {α} (s : NStore α) : Bool := reachesInput s s.cells.length s.ret
+
+/-- `_nona(df, nan, edge)` for a Series / DataFrame: `res = df[~mask]` (new object), then `res`, `df.loc[:res.index[-1]]` or
+    `df.loc[res.index[0]:]` (new objects) -/
+def nonaPd (edge : Option Int) (f : Frame) : Res (NStore Frame) :=
+  let s0 : NStore Frame := { cells := [⟨f, Option.none⟩], ret := 0, writes := [] }
+  let res := f.gather ((List.range f.nrows).filter f.rowValid)
+  let s1 := s0.alloc res Option.none
+  match edge with
+  | Option.none => .ok s1
+  | some e =>
+    if res.idx.isEmpty then .ok s1
+    else if e == 1 then
+      .ok (s1.alloc (f.gather ((List.range f.nrows).filter fun i => decide (f.idx.getD i 0 ≤ res.idx.getLastD 0))) Option.none)
+    else if e == -1 then
+      .ok (s1.alloc (f.gather ((List.range f.nrows).filter fun i => decide (f.idx.getD i 0 ≥ res.idx.headD 0))) Option.none)
+    else .error .other
+
+/-- `_nona(df, nan, edge)` for an array.  `copy = true` is the repaired code (`df[:k].copy()`, repo fix C12-E2);
+    `copy = false` is the code before it: the basic slice itself, a view of the argument -/
+def nonaArrS (copy : Bool) (edge : Option Int) (cols : List Col) : Res (NStore (List Col)) :=
+  let s0 : NStore (List Col) := { cells := [⟨cols, Option.none⟩], ret := 0, writes := [] }
+  let s1 := s0.alloc (nonaArr cols) Option.none                       -- `df[~mask]`: boolean-mask indexing copies
+  let valid := (List.range (ofArr cols).nrows).filter (ofArr cols).rowValid
+  let slice (v : List Col) : NStore (List Col) :=
+    let s2 := s1.alloc v (some 0)                                      -- `df[:k]` / `df[k:]`: a VIEW of `df`
+    if copy then s2.alloc v Option.none else s2                        -- `.copy()`
+  match edge with
+  | Option.none => .ok s1
+  | some e =>
+    if valid.isEmpty then .ok s1
+    else if e == 1 then .ok (slice (cols.map fun c => c.take (valid.getLastD 0 + 1)))
+    else if e == -1 then .ok (slice (cols.map fun c => c.drop (valid.headD 0)))
+    else .error .other
+
+def NStore.result {α} (s : NStore α) : Option α := (s.cells[s.ret]?).map (·.val)
+
 end Pyg.FillAlias
